@@ -5,6 +5,7 @@ package main
 import (
 	"encoding/json"
 	"fmt"
+	"github.com/oauth2-proxy/oauth2-proxy/v7/providers"
 	"net/url"
 	"os"
 	"path/filepath"
@@ -673,7 +674,7 @@ func (e *c08Env) exec(cs *c08Case, pre *c08Pre) (key, msg, class string) {
 	jar := pre.jar
 	var hdr [][2]string
 	switch cs.Source {
-	case "oidc-cookie", "htpasswd-form":
+	case "oidc-cookie", "htpasswd-form", "synthetic-provider-cookie":
 		if jar != nil {
 			break
 		}
@@ -690,7 +691,20 @@ func (e *c08Env) exec(cs *c08Case, pre *c08Pre) (key, msg, class string) {
 			lresp = b.PostForm("/oauth2/sign_in", url.Values{"username": {"hal"}, "password": {"pw1"}, "rd": {"/page"}})
 		} else {
 			var err error
-			if lresp, _, err = b.Login(e.idp, e.user(cs), "/page"); err != nil {
+			user := e.user(cs)
+			if cs.Source == "synthetic-provider-cookie" {
+				// the identity comes straight from a provider (see c08_synth_test.go); the browser still goes
+				// through start, the provider's authorisation endpoint and the callback
+				restore, serr := verifSetProvider(lp.P, func(real providers.Provider) providers.Provider {
+					return &c08SynthProvider{Provider: real, email: email, groups: groups}
+				})
+				if serr != nil {
+					return "", serr.Error(), "harness-error"
+				}
+				defer restore()
+				user = "alice"
+			}
+			if lresp, _, err = b.Login(e.idp, user, "/page"); err != nil {
 				return "", "login could not be started: " + err.Error(), "harness-error"
 			}
 		}
@@ -925,6 +939,11 @@ func (e *c08Env) c08Main() {
 				e.run(&c08Case{Part: "login", Source: "oidc-cookie", Login: &r, Rules: r, Email: id.Email, Groups: id.GS.G, NoClaim: id.GS.NoClaim},
 					&c08Pre{loginPx: px})
 			}
+			if id.gi < 2 {
+				// the same identity handed over by a provider that requires nothing of it
+				e.run(&c08Case{Part: "login-synthetic", Source: "synthetic-provider-cookie", Login: &r, Rules: r, Email: id.Email, Groups: id.GS.G, NoClaim: id.GS.NoClaim},
+					&c08Pre{loginPx: px})
+			}
 		}
 		e.trim()
 	}
@@ -1091,7 +1110,7 @@ func init() {
 		},
 		post: func(c *Ctx) {
 			need := []string{"expect_serve", "expect_refuse-global", "expect_refuse", "expect_login-ok", "expect_login-refuse", "ambiguous",
-				"part_sessions", "part_login", "part_authonly", "part_history", "part_htpasswd", "part_bearer",
+				"part_sessions", "part_login", "part_login-synthetic", "part_authonly", "part_history", "part_htpasswd", "part_bearer",
 				"revoked_by_rule_change", "sessions_minted_noncanonical_email", "configs_rejected_by_validation", "distinct_nontrivial"}
 			sort.Strings(need)
 			for _, k := range need {
